@@ -5,9 +5,11 @@
      - an accepted triangle lies, with ALL its points, within the allowed distance of the path.
    Which polygons must be covered and which distance is allowed is derived from the input polyline by the
    harness (c06.rs) as the property states them; that the stroker passes for every input is validated
-   per run, on the lines scanned, not proved.  Statements only; proofs in Proofs/C06_Cover.v. *)
+   per run, on the lines scanned - and for small strokes at EVERY point of the plane (check_plane_sub) - not
+   proved.  Statements only; proofs in Proofs/C06_Cover.v and Proofs/C06_CoverPlane.v. *)
 From Coq Require Import QArith.
-From LV Require Import Base.Prelude Model.Bezier Model.Winding Checker.Region Checker.StrokeCover Proofs.C06_Cover.
+From LV Require Import Base.Prelude Model.Bezier Model.Winding Checker.Region Checker.StrokeCover Checker.Slab Checker.CoverPlane
+  Proofs.C06_Cover Proofs.C06_CoverPlane.
 Open Scope Q_scope.
 
 Theorem C06_simple_between_strict : forall lo hi, lo < hi ->
@@ -54,9 +56,26 @@ Example C06_within_example :
   /\ tri_within 1 [((0, 0), (4, 0))] ((0, 1#2), (4, 1#2), (4, 2)) = false.
 Proof. exact within_example. Qed.
 
+
+(* ---- every point of the plane (slab lift of the cover check, Checker/CoverPlane.v) *)
+Theorem C06_slab_sub_sound : forall ps ts y0 y1,
+  check_slab_sub ps ts y0 y1 = true ->
+  forall x y, y0 < y -> y < y1 -> in_polygons ps (x, y) = true -> covers ts (x, y) = true.
+Proof. exact slab_sub_sound. Qed.
+
+Theorem C06_plane_sub_sound : forall ps ts ys,
+  check_plane_sub ps ts ys = true ->
+  forall p, in_polygons ps p = true -> covers ts p = true.
+Proof. exact plane_sub_sound. Qed.
+
+Example C06_plane_example : check_plane_sub [unit_square_edges] unit_square_tris [0; 1] = true.
+Proof. exact plane_sub_example. Qed.
+
 Print Assumptions C06_simple_between_strict.
 Print Assumptions C06_line_sub_sound.
 Print Assumptions C06_check_sub_sound.
 Print Assumptions C06_thin_subset.
 Print Assumptions C06_tri_within_sound.
 Print Assumptions C06_all_within_sound.
+Print Assumptions C06_slab_sub_sound.
+Print Assumptions C06_plane_sub_sound.
